@@ -19,6 +19,8 @@ var c09Stages = []struct{ stage, mode string }{
 	{"fork.Filter", "pure"}, {"fork.Partition", "pure"}, {"fork.ForEach", "pure"}, {"fork.Void", "pure"},
 	// fail-fast failures: each failing worker stops; closure / cancellation / no-leak must still hold
 	{"fork.Map", "lift!"}, {"fork.FMap", "lift!"},
+	// ForEach has no error output: visits that fail are still visits, and the rest of the input is visited too
+	{"fork.ForEach", "lift"}, {"fork.ForEach", "try"},
 }
 
 var (
@@ -118,6 +120,9 @@ func genC09(t *testing.T) {
 				if st.mode == "try" && ln > 0 {
 					fail = []int{in[ln/2]}
 				}
+				if st.stage == "fork.ForEach" && st.mode != "pure" {
+					fail = in[:min(ln, par+1)]
+				}
 				if st.mode == "lift!" && ln > 0 {
 					fail = in[:min(ln, par+1)] // more failing elements than workers: every worker stops
 					if ln%2 == 0 {
@@ -159,7 +164,7 @@ func genC09(t *testing.T) {
 		}
 		in := ids(1000, ln)
 		var fail []int
-		if st.mode == "try" || st.mode == "lift!" {
+		if st.mode == "try" || st.mode == "lift!" || st.mode == "lift" {
 			for _, x := range in {
 				if r.IntN(4) == 0 {
 					fail = append(fail, x)
